@@ -18,6 +18,9 @@ package main
 //	                                                        variable, by a compound operator, never, inside an if block
 //	L,<op>,<lty>,<lprov>,<rty>,<form>  the same provenances for the LEFT operand (form: lit or local)
 //
+//	X,<op>,<lty>,<variant>             other spellings of a literal (negative numbers, RTIME units, long string, false)
+//	                                   and a header sub-field (req.http.X:sub) as right operand
+//
 //	C,<ctx>,<E>,<T>,<form>             a value of type T in one of the eight forms where a value of type E is expected:
 //	                                   ctx = arg (argument of a built-in expecting E), ret (return value of a functional
 //	                                   subroutine of return type E), par (argument bound to a parameter of type E)
@@ -191,6 +194,36 @@ func tOpProgramL(op, lty, lprov, rty, form string) (string, error) {
 	if !ok {
 		return "", fmt.Errorf("no %s operand of type %s", form, rty)
 	}
+	if tAssignOps[op] {
+		return tAssemble(r, "", ld, "set "+le+" "+op+" "+r.expr+";\n"), nil
+	}
+	return tAssemble(r, "", ld+"declare local var.verif_b BOOL;\n", "set var.verif_b = ("+le+" "+op+" "+r.expr+");\n"), nil
+}
+
+// literal spellings and a header sub-field as right operand: (variant id) -> (declarations, expression)
+var tVariants = map[string][2]string{
+	"int-neg":    {"", "-5"},
+	"float-neg":  {"", "-1.5"},
+	"rtime-m":    {"", "5m"},
+	"rtime-h":    {"", "1h"},
+	"rtime-d":    {"", "2d"},
+	"rtime-y":    {"", "1y"},
+	"rtime-ms":   {"", "500ms"},
+	"str-long":   {"", "{\"192.0.2.1\"}"},
+	"bool-false": {"", "false"},
+	"hdr-field":  {"set req.http.X-Verif-r:sub = \"192.0.2.1\";\n", "req.http.X-Verif-r:sub"},
+}
+
+func tVariantProgram(op, lty, variant string) (string, error) {
+	v, ok := tVariants[variant]
+	if !ok {
+		return "", fmt.Errorf("unknown variant %s", variant)
+	}
+	ld, le, ok := tOperand(lty, "local", "l", true)
+	if !ok {
+		return "", fmt.Errorf("no left operand of type %s", lty)
+	}
+	r := tRhs{decls: v[0], expr: v[1]}
 	if tAssignOps[op] {
 		return tAssemble(r, "", ld, "set "+le+" "+op+" "+r.expr+";\n"), nil
 	}
